@@ -616,4 +616,51 @@ theorem runIter_spec (cfg : Cfg) (hs : 0 < cfg.size) (rf : Nat) :
               · exact absurd h2 hk
               · exact keyTail_none h2
 
+
+/-! ### a whole compaction -/
+
+/-- the input files as the readers present them: per file ascending non-empty keys,
+    fresh well-formed blocks, and at most 20 blocks per key over all files
+    (so that `sort.Stable` stays an insertion sort) -/
+structure FilesOK (files : List (FileRuns V)) : Prop where
+  rwf : ∀ f ∈ files, RunsWF f
+  fresh : ∀ k, ∀ b ∈ blocksFor files k, Fresh b
+  cap : ∀ k, (blocksFor files k).length ≤ 20
+
+theorem allRuns_init (files : List (FileRuns V)) :
+    allRuns files (files.map (fun _ => (([] : Key), ([] : List (Block V))))) = files := by
+  induction files with
+  | nil => rfl
+  | cons f fs ih => simp [allRuns, runsOf, ih]
+
+/-- **the compaction iterator**: the written sequence has ascending keys and holds, for
+    every key, exactly the newest-wins content of that key's blocks (minus tombstones). -/
+theorem compactSeq_spec (cfg : Cfg) (hs : 0 < cfg.size) (files : List (FileRuns V)) (ok : FilesOK files)
+    (seq : List (Key × OBlk V)) (h : compactSeq cfg files = .ok seq) :
+    RestOK cfg files [] seq := by
+  unfold compactSeq at h
+  have hR : allRuns (Iter.init files).its (Iter.init files).buf = files := allRuns_init files
+  have ci : CurInv cfg (Iter.init files) [] (fun _ => none) [] := by
+    refine ⟨⟨0, ?_⟩, by simp [Iter.init], by simp [Iter.init], by simp [Iter.init], by simp [Iter.init],
+      ?_, ?_, ?_, ?_⟩
+    · refine ⟨by simp [Iter.init], by simpa [Iter.init] using asc_nil, by simp [Iter.init], ?_⟩
+      intro t; simp [Iter.init, restAt]
+    · rw [hR]; exact ok.rwf
+    · rw [hR]; exact ok.fresh
+    · rw [hR]; exact ok.cap
+    · rw [hR]
+      show ∀ f ∈ files, ∀ r ∈ f, keyLt [] r.1 = true
+      intro f hf r hr
+      have := ((ok.rwf f hf).2 r hr).1
+      cases hk : r.1 with
+      | nil => exact absurd hk this
+      | cons a as => rfl
+  obtain ⟨outs, rest, e1, kt, ro⟩ := runIter_spec cfg hs _ _ (Iter.init files) [] _ [] ci seq h
+  have : outs = [] := keyTail_outs_nil kt (fun _ => rfl)
+  subst this
+  simp only [List.map_nil, List.nil_append] at e1
+  subst e1
+  rw [hR] at ro
+  exact ro
+
 end Influx.Model.Compact
